@@ -371,6 +371,11 @@ func c10CheckOwnerGuard(site ssa.Instruction, key ssa.Value, sp c10OwnerSpec, sl
 			why = "the entry's owner is compared with the deleted key itself, not with the acting cluster (only the cluster's own name could ever be removed; its aliases keep resolving after deletion)"
 		case sl.DerivesFrom(t.acting, func(v ssa.Value) bool { cc, _ := eng.CallResultOf(v); return cc == t.lookup }):
 			why = "the entry's owner is compared with a value read from the same lookup (vacuous owner test)"
+		case sl.DerivesFrom(t.acting, func(v ssa.Value) bool {
+			cc, _ := eng.CallResultOf(v)
+			return cc != nil && sp.isLookup(cc)
+		}):
+			why = "the acting cluster's identity is itself read from a table lookup: a name that resolves through an alias yields ANOTHER cluster's entry, whose names then pass the owner test (history: A holds alias x; an object named x is deleted ⇒ all names of A are removed). The acting identity must be the caller's own (the name parameter or the .Cluster of the cluster passed in)"
 		default:
 			return true, "", t.acting
 		}
@@ -391,6 +396,7 @@ func c10(c *eng.Ctx) {
 	c.Rule("R4", "deleted names stop resolving: on the lister's NotFound edge the sync handler always reaches a cleanup that looks the cluster up under the lower-cased object name, iterates all of its LoadServerNames() without leaving the loop early and deletes each owned name; manager.Delete/DeleteWithStop remove the lower-cased key from the table on every path", 5)
 	c.Rule("R5", "TLS material of the same cluster: ClientCAs/Certificates copied into the per-handshake tls.Config are the fields of LoadTLSConfig() of the cluster returned by Manager.Get(SNI host); SNIVerifyOptions returns LoadVerifyOptions() of Get(HostWithoutPort(host)); both loaders read the receiver's own secure-serving config, which is only stored into the receiver's own slot", 8)
 
+	c10R2p(x)
 	c10R1(x)
 	c10R1h(x)
 	acting := c10R2(x)
@@ -1505,5 +1511,70 @@ func c10Fixtures(c *eng.Ctx) {
 			got, _, _ = c10CheckOwnerGuard(ci, eng.Args(ci)[0], sp, sl)
 		}
 		c.Fixture("C10.owner/"+name, fmt.Sprint(w), fmt.Sprint(n == 1 && got))
+	}
+}
+
+// ---------------------------------------------------------------------------------------
+// R2p (added after seeded change C10-2): an object is applied to a cluster only after its
+// names passed the conflict check.
+
+// c10R2p: in the controller's sync handler every application of an object
+// (ClusterInfo.Sync / CreateClusterInfo) is reachable only on the nil edge of a pre-check
+// whose result is that of a conflict-check function. Applying first and checking afterwards
+// stores the new server-name list inside the ClusterInfo although the names were refused:
+// the next sync sees old == new names, skips registration, and the name never resolves to
+// the cluster even after its previous holder released it.
+func c10R2p(x *c10x) {
+	c := x.c
+	c.Rule("R2p", "apply only after the name check: in the sync handler ClusterInfo.Sync / CreateClusterInfo are reachable only on the nil edge of a conflict pre-check of the same object", 2)
+	sp := c10OwnerSpec{
+		isLookup:  func(ci ssa.CallInstruction) bool { return c10IsMgr(ci, "Get") },
+		ownerBase: func(v ssa.Value) ssa.Value { return eng.FieldBase(v, c10TCluster, "Cluster") },
+	}
+	isConflictFn := func(f *ssa.Function) bool {
+		if f == nil || f.Blocks == nil {
+			return false
+		}
+		s := x.conflictSummary(f, sp)
+		return s != nil && s.clusterParam >= 0
+	}
+	// a pre-check: returns the result of a conflict-check function (directly or one level up)
+	var isPreCheck func(f *ssa.Function, depth int) bool
+	isPreCheck = func(f *ssa.Function, depth int) bool {
+		if f == nil || f.Blocks == nil || depth > 2 {
+			return false
+		}
+		if isConflictFn(f) {
+			return true
+		}
+		found := false
+		eng.Instrs(f, func(ins ssa.Instruction) {
+			r, ok := ins.(*ssa.Return)
+			if !ok || len(r.Results) != 1 {
+				return
+			}
+			if cc, _ := eng.CallResultOf(r.Results[0]); cc != nil && isPreCheck(eng.CalleeFn(cc), depth+1) {
+				found = true
+			}
+		})
+		return found
+	}
+	n := 0
+	for _, fn := range c.W.FuncsOf(pkgCtrl) {
+		for _, ci := range eng.Calls(fn) {
+			if !eng.IsCall(ci, "(*"+c10TCluster+").Sync", pkgClusters+".CreateClusterInfo") {
+				continue
+			}
+			n++
+			ok := eng.GuardedByNil(ci, func(v ssa.Value) bool {
+				cc, _ := eng.CallResultOf(v)
+				return cc != nil && cc.Parent() == fn && isPreCheck(eng.CalleeFn(cc), 0)
+			}, true)
+			c.Check("R2p", fn, x.nth(fn, shortName(eng.FullName(ci))+" only after the conflict pre-check == nil"), ci.Pos(), ok,
+				"the object is applied to the cluster before (or without) its names being checked against their current holders: a refused update has already replaced the cluster's server-name list, later syncs see no difference and never register the name")
+		}
+	}
+	if n < 2 {
+		c.Fail("R2p", nil, "object applications in the controller", 0, "ClusterInfo.Sync / CreateClusterInfo calls not found")
 	}
 }
